@@ -112,6 +112,33 @@ public:
     }
 };
 
+// x[0] = 0 (a hyperplane; co-dimension 1)
+class PlaneConstraint : public ob::Constraint
+{
+public:
+    explicit PlaneConstraint(unsigned n) : ob::Constraint(n, 1)
+    {
+    }
+    void function(const Eigen::Ref<const Eigen::VectorXd> &x, Eigen::Ref<Eigen::VectorXd> out) const override
+    {
+        out[0] = x[0];
+    }
+};
+
+// torus with radii 2 and 1 in the first three coordinates (numerical Jacobian of the base class)
+class TorusConstraint : public ob::Constraint
+{
+public:
+    explicit TorusConstraint(unsigned n) : ob::Constraint(n, 1)
+    {
+    }
+    void function(const Eigen::Ref<const Eigen::VectorXd> &x, Eigen::Ref<Eigen::VectorXd> out) const override
+    {
+        double c = std::sqrt(x[0] * x[0] + x[1] * x[1]) - 2.0;
+        out[0] = c * c + x[2] * x[2] - 1.0;
+    }
+};
+
 static SpaceH parseSpaceExt(const std::vector<std::string> &t, size_t &i)
 {
     if (i >= t.size())
@@ -194,26 +221,45 @@ static SpaceH parseSpaceExt(const std::vector<std::string> &t, size_t &i)
             s->setTimeBounds(lo, hi);
         return {s, s, {}, {}};
     }
-    if (k == "projected" || k == "atlas" || k == "tangentbundle")
     {
-        ++i;
-        auto amb = vp::parseSpace(t, i);
-        if (!dynamic_cast<ob::RealVectorStateSpace *>(amb.get()) || amb->getDimension() < 2)
-            throw vp::ParseError("constrained spaces need an R^n ambient space, n >= 2");
-        auto con = std::make_shared<UnitSphereConstraint>(amb->getDimension());
-        ob::StateSpacePtr s;
-        if (k == "projected")
-            s = std::make_shared<ob::ProjectedStateSpace>(amb, con);
-        else if (k == "atlas")
-            s = std::make_shared<ob::AtlasStateSpace>(amb, con);
-        else
-            s = std::make_shared<ob::TangentBundleStateSpace>(amb, con);
-        SpaceH out{s, s, {}, {}};
-        if (k == "tangentbundle")
-            out.life.push_back(std::make_shared<ob::TangentBundleSpaceInformation>(s));
-        else
-            out.life.push_back(std::make_shared<ob::ConstrainedSpaceInformation>(s));
-        return out;
+        // projected|atlas|tangentbundle[:sphere|:plane|:torus] <ambient space of spaces.h grammar>
+        std::string base = k, cname = "sphere";
+        auto colon = k.find(':');
+        if (colon != std::string::npos)
+        {
+            base = k.substr(0, colon);
+            cname = k.substr(colon + 1);
+        }
+        if (base == "projected" || base == "atlas" || base == "tangentbundle")
+        {
+            ++i;
+            auto amb = vp::parseSpace(t, i);
+            unsigned n = amb->getDimension();
+            if (n < 2 || (cname == "torus" && n < 3))
+                throw vp::ParseError("ambient dimension");
+            ob::ConstraintPtr con;
+            if (cname == "sphere")
+                con = std::make_shared<UnitSphereConstraint>(n);
+            else if (cname == "plane")
+                con = std::make_shared<PlaneConstraint>(n);
+            else if (cname == "torus")
+                con = std::make_shared<TorusConstraint>(n);
+            else
+                throw vp::ParseError("constraint");
+            ob::StateSpacePtr s;
+            if (base == "projected")
+                s = std::make_shared<ob::ProjectedStateSpace>(amb, con);
+            else if (base == "atlas")
+                s = std::make_shared<ob::AtlasStateSpace>(amb, con);
+            else
+                s = std::make_shared<ob::TangentBundleStateSpace>(amb, con);
+            SpaceH out{s, s, {}, {}};
+            if (base == "tangentbundle")
+                out.life.push_back(std::make_shared<ob::TangentBundleSpaceInformation>(s));
+            else
+                out.life.push_back(std::make_shared<ob::ConstrainedSpaceInformation>(s));
+            return out;
+        }
     }
     if (k == "cforest")
     {
@@ -300,7 +346,27 @@ int main()
                 if (i != t.size())
                     throw vp::ParseError("trailing");
                 if (op == "dist")
-                    std::cout << "d " << vp::bits(sp->distance(a.s, b.s)) << "\n";
+                {
+                    std::cout << "d " << vp::bits(sp->distance(a.s, b.s));
+                    // recorded answers for the Lean model (Model/SpaceDistCar.lean): Owen: the root of the bracketing
+                    // search; VanaOwen: vertical radius and the three lengths of the SZ Dubins path; none = no path
+                    if (auto ow = dynamic_cast<ob::OwenStateSpace *>(sp.get()))
+                    {
+                        if (auto path = ow->getPath(a.s, b.s))
+                            std::cout << " rec 1 " << vp::bits(path->numTurns_ > 0 ? path->turnRadius_ : path->phi_);
+                        else
+                            std::cout << " rec 0";
+                    }
+                    else if (auto vo = dynamic_cast<ob::VanaOwenStateSpace *>(sp.get()))
+                    {
+                        if (auto path = vo->getPath(a.s, b.s))
+                            std::cout << " rec 4 " << vp::bits(path->verticalRadius_) << " " << vp::bits(path->pathSZ_.length_[0])
+                                      << " " << vp::bits(path->pathSZ_.length_[1]) << " " << vp::bits(path->pathSZ_.length_[2]);
+                        else
+                            std::cout << " rec 0";
+                    }
+                    std::cout << "\n";
+                }
                 else
                     std::cout << "eq " << (sp->equalStates(a.s, b.s) ? 1 : 0) << "\n";
             }
@@ -354,9 +420,69 @@ int main()
                         throw vp::ParseError("dim");
                     tm->setBounds(lo[0], hi[0]);
                 }
+                else if (auto dc = dynamic_cast<ob::DiscreteStateSpace *>(node))
+                {
+                    if (n != 1)
+                        throw vp::ParseError("dim");
+                    dc->setBounds((int)lo[0], (int)hi[0]);
+                }
+                else if (auto s2 = dynamic_cast<ob::SE2StateSpace *>(node))
+                {
+                    // SE2StateSpace::setBounds / SE3StateSpace::setBounds: the classes' own forwarders
+                    if (n != 2)
+                        throw vp::ParseError("dim");
+                    ob::RealVectorBounds b(2);
+                    b.low = lo;
+                    b.high = hi;
+                    s2->setBounds(b);
+                }
+                else if (auto s3 = dynamic_cast<ob::SE3StateSpace *>(node))
+                {
+                    if (n != 3)
+                        throw vp::ParseError("dim");
+                    ob::RealVectorBounds b(3);
+                    b.low = lo;
+                    b.high = hi;
+                    s3->setBounds(b);
+                }
                 else
                     throw vp::ParseError("setbounds on a space without bounds");
                 std::cout << "ok\n";
+            }
+            else if (op == "adddim")
+            {
+                // RealVectorStateSpace::addDimension(minBound, maxBound) on the R^n node at the path
+                size_t i = 1;
+                auto path = needPath(t, i);
+                double lo = vp::needF(t, i), hi = vp::needF(t, i);
+                if (i != t.size())
+                    throw vp::ParseError("trailing");
+                auto r = dynamic_cast<ob::RealVectorStateSpace *>(navigate(H, path));
+                if (!r)
+                    throw vp::ParseError("adddim");
+                r->addDimension(lo, hi);
+                std::cout << "ok\n";
+            }
+            else if (op == "weights")
+            {
+                // getSubspaceWeight(i) for every i, and by name, of the compound at the path
+                size_t i = 1;
+                auto path = needPath(t, i);
+                if (i != t.size())
+                    throw vp::ParseError("trailing");
+                auto c = dynamic_cast<ob::CompoundStateSpace *>(navigate(H, path));
+                if (!c || dynamic_cast<ob::WrapperStateSpace *>(c))
+                    throw vp::ParseError("weights");
+                std::string out = "w " + std::to_string(c->getSubspaceCount());
+                for (unsigned j = 0; j < c->getSubspaceCount(); ++j)
+                {
+                    double w = c->getSubspaceWeight(j);
+                    double wn = c->getSubspaceWeight(c->getSubspace(j)->getName());
+                    if (vp::bits(w) != vp::bits(wn) || vp::bits(w) != vp::bits(c->getSubspaceWeights()[j]))
+                        out += " MISMATCH";
+                    out += " " + vp::bits(w);
+                }
+                std::cout << out << "\n";
             }
             else if (op == "setweight" || op == "setweightn")
             {
